@@ -49,6 +49,27 @@ Definition repaired_F16_documents : list doc :=
 Example C12_repaired_F16_rejected :
   forallb (fun w => negb (accepts pf0 w) && negb (glif_okb pf0 w)) repaired_F16_documents = true.
 Proof. vm_compute. reflexivity. Qed.
+(** names are compared whole: a namespace-style prefix, another letter case or an affix makes an
+    element or attribute unknown (the qualified name includes the prefix; declaring the prefix on
+    <glyph> is itself an unknown attribute).  Regression inputs for the seeded change C12-d. *)
+Definition lookalike_documents : list doc :=
+  [ glyph_doc "2" [S_ "outline" [] [S_ "contour" [] [E_ "point" [("x", "0"); ("y", "0"); ("type", "line")];
+                                                      E_ "ext:point" [("x", "1"); ("y", "1"); ("type", "line")]]]];
+    glyph_doc "1" [S_ "outline" [] [S_ "contour" [] [E_ "x:point" [("x", "1"); ("y", "2"); ("type", "move"); ("name", "top")]]]];
+    glyph_doc "2" [S_ "outline" [] [S_ "contour" [] [E_ "Point" [("x", "0"); ("y", "0"); ("type", "line")]]]];
+    glyph_doc "2" [S_ "outline" [] [S_ "contour" [] [E_ "point" [("x", "0"); ("y", "0"); ("p:x", "0")]]]];
+    glyph_doc "2" [S_ "outline" [] [S_ "p:contour" [] []]];
+    glyph_doc "2" [S_ "outline" [] [E_ "component2" [("base", "a")]]];
+    glyph_doc "2" [E_ "p:advance" [("width", "500")]];
+    glyph_doc "2" [E_ "Advance" [("width", "500")]];
+    glyph_doc "2" [E_ "advance" [("Width", "500")]];
+    glyph_doc "2" [S_ "p:outline" [] []];
+    glyph_doc "2" [S_ "p:note" [] [Text (s2l "x")]];
+    [Decl; S_ "glyph" [("name", "a"); ("format", "2"); ("xmlns:p", "http://example.com/ns")] []];
+    [Decl; S_ "p:glyph" [("name", "a"); ("format", "2")] []] ].
+Example C12_lookalike_names_rejected :
+  forallb (fun w => negb (accepts pf0 w) && negb (glif_okb pf0 w)) lookalike_documents = true.
+Proof. vm_compute. reflexivity. Qed.
 Theorem C12_F16_witnesses :
   Forall (fun w => (exists g, parse_glif pf0 w = Ok g) /\ ~ glif_ok pf0 w /\ F16 w) F16_witnesses.
 Proof. apply witness_sound. vm_compute. reflexivity. Qed.
